@@ -157,9 +157,10 @@ F_Tok(id, ans) ==
        IN fet' = g /\ aux' = AuxFet(f, g, IF ans = e.claim THEN {e.id} ELSE {})    \* the evidence is the answer, not the decision
     /\ UNCHANGED <<cfg, run, failed, pol, han, reo, reqQ, outs>>
 
-\* an attestation-shaped event that does not come from the token bridge can never be forwarded: no call is required
+\* an attestation-shaped event that does not come from the token bridge, or whose payload names another token chain than
+\* Alephium (claim "badchain": it equals no answer of any contract), can never be forwarded: no call is required
 F_SkipForeign ==
-    /\ fet.q # <<>> /\ NeedsTok(Head(fet.q)) /\ ~Head(fet.q).tb
+    /\ fet.q # <<>> /\ NeedsTok(Head(fet.q)) /\ (~Head(fet.q).tb \/ Head(fet.q).claim = "badchain")
     /\ LET g == Settle([fet EXCEPT !.q = Tail(fet.q)])
        IN fet' = g /\ aux' = AuxFet(fet, g, {})
     /\ UNCHANGED <<cfg, run, failed, pol, han, reo, reqQ, outs>>
